@@ -388,9 +388,13 @@ class Channel:
         dt = np.dtype(("<" if p["order"] == "<" else ">") + p["kind"] + str(p["size"]))
         before = self.tree_hash(d)
         ev = dict(ev="open", d=d, start=start_rel, pid=pid)
+        # the session identifier: the default (32 hex digits), the canonical dashed form (36 characters), free-form text
+        import uuid as _uuid
+        self.nopen = getattr(self, "nopen", 0) + 1
+        ustr = [None, str(_uuid.uuid4()), None, "session-%d-of-%s" % (self.nopen, _uuid.uuid4().hex * 2), "u%d" % self.nopen][self.nopen % 5]
         try:
             w = self.drf.DigitalRFWriter(
-                self.chdir(d), dt, p["sc"], p["fc"], start_rel + cc.B, p["n"], p["d"], uuid_str=None,
+                self.chdir(d), dt, p["sc"], p["fc"], start_rel + cc.B, p["n"], p["d"], uuid_str=ustr,
                 compression_level=cc.compression, checksum=cc.checksum, is_complex=bool(p["is_complex"]),
                 num_subchannels=p["nsub"], is_continuous=bool(p["continuous"]), marching_periods=False,
             )
